@@ -2,8 +2,8 @@
      src/mem_store/column_buffer.rs   IntColBuffer::{default, push, finalize}
      src/mem_store/integers.rs        IntegerColumn::{new_boxed, create_col, encode}
    Executable definitions only.  Every i64 `-` of the Rust code is [sub64] (panic on overflow, as in
-   the dev profile of the repository's tests); the u64 addition in `interval` cannot overflow
-   (max <= 2^63-1, -min <= 2^63) and is computed in Z. *)
+   the dev profile of the repository's tests); the u64 addition and the i128 subtraction in `interval`
+   cannot overflow and are computed in Z.  Model of /repo 4a8ac11 (after the fixes of F10 and F19). *)
 From Coq Require Import ZArith List Bool.
 From LV Require Import Model.CodecBase.
 Import ListNotations.
@@ -12,19 +12,24 @@ Open Scope Z_scope.
 (* ---------------------------------------------------------------------------------------------- *)
 (* IntColBuffer statistics *)
 
+(* [st_seen] is `!self.data.is_empty()`: the data vector itself is kept by the caller *)
 Record istats := mk_istats {
-  st_min : Z; st_max : Z; st_incr : Z; st_allow : bool; st_last : Z
+  st_min : Z; st_max : Z; st_incr : Z; st_allow : bool; st_last : Z; st_seen : bool
 }.
 
-Definition istats_init : istats := mk_istats i64_max i64_min 0 true i64_min.
+Definition istats_init : istats := mk_istats i64_max i64_min 0 true i64_min false.
 
-(* IntColBuffer::push (the data vector itself is kept by the caller) *)
+(* IntColBuffer::push.
+   History: until /repo 481c464 the difference was only tested in the `else` branch of
+   `if elem > self.last` (finding F10: an increasing step above i64::MAX kept delta coding allowed and
+   the delta transform overflowed).  Now:
+     if elem > self.last { self.increasing += 1 }
+     if !self.data.is_empty() && elem.checked_sub(self.last).is_none() { self.allow_delta_encode = false } *)
 Definition istats_push (st : istats) (e : Z) : istats :=
   mk_istats (Z.min e (st_min st)) (Z.max e (st_max st))
             (if st_last st <? e then st_incr st + 1 else st_incr st)
-            (if st_last st <? e then st_allow st
-             else if in_i64 (e - st_last st) then st_allow st else false)   (* checked_sub(..).is_none() *)
-            e.
+            (if st_seen st && negb (in_i64 (e - st_last st)) then false else st_allow st)
+            e true.
 
 Definition istats_push_all (st : istats) (es : list Z) : istats := fold_left istats_push es st.
 
@@ -55,12 +60,14 @@ Definition delta_transform (values : list Z) (mn mx : Z) : result (list Z * (Z *
   | v0 :: r => do '(ds, mm) <- delta_loop v0 v0 v0 r ; Val (v0 :: ds, mm)
   end.
 
-(* let interval = if min < 0 && max > 0 { max as u64 + (-(min as i128)) as u64 } else { (max - min) as u64 }
-   (max - min) is an i64 subtraction; when it does not overflow in this branch it is >= 0 on every
-   non-empty column, and for the empty column (min = i64::MAX, max = i64::MIN) it overflows. *)
+(* let interval = if min < 0 && max > 0 { max as u64 + (-(min as i128)) as u64 }
+                  else { (max as i128 - min as i128) as u64 }
+   History: until /repo 3e7ef89 the second branch was the i64 subtraction `(max - min) as u64`, which
+   overflowed for min = i64::MIN, max = 0 (finding F19) and for the statistics of an empty buffer.
+   The i128 difference cannot overflow; `as u64` keeps it modulo 2^64 (negative only when max < min). *)
 Definition interval (mn mx : Z) : result Z :=
   if (mn <? 0) && (0 <? mx) then Val (mx + - mn)
-  else do d <- sub64 mx mn ; Val (if d <? 0 then d + 18446744073709551616 else d).   (* as u64 *)
+  else let d := mx - mn in Val (if d <? 0 then d + 18446744073709551616 else d).   (* as u64 *)
 
 Definition wmax (t : etype) : Z :=
   match t with
